@@ -313,6 +313,7 @@ CHECKS = {
             {"name": "c19-small", "bin": "cmdglyph", "build": "inpkg:cmd/glyph", "run": "^TestC19Small$", "enumerate": True, "shards": 14, "gomaxprocs": 4},
             {"name": "c19-dev", "bin": "cmdglyph", "build": "inpkg:cmd/glyph", "run": "^TestC19Dev$", "quick": 140, "thorough": 4000, "gomaxprocs": 4, "min_per_shard": 1},
             {"name": "c19-lib", "bin": "hotreload", "build": "inpkg:pkg/hotreload", "run": "^TestC19Lib$", "quick": 20000, "thorough": 500000},
+            {"name": "c19-libconc", "bin": "hotreload", "build": "inpkg:pkg/hotreload", "run": "^TestC19LibConc$", "quick": 300, "thorough": 20000},
         ],
     },
     "C20": {
